@@ -227,7 +227,7 @@ public:
 		{
 			if (auto xmlNode = LoadNextItem())
 			{
-				if (xmlNode.first_child().empty() || xmlNode.first_child().type() == pugi::node_element)
+				if (xmlNode.type() == pugi::node_element && (xmlNode.first_child().empty() || xmlNode.first_child().type() == pugi::node_element))
 				{
 					return std::make_optional<PugiXmlArrayScope<TMode>>(xmlNode, TArchiveScope<TMode>::GetContext());
 				}
@@ -248,7 +248,7 @@ public:
 		{
 			if (auto xmlNode = LoadNextItem())
 			{
-				if (xmlNode.first_child().empty() || xmlNode.first_child().type() == pugi::node_element)
+				if (xmlNode.type() == pugi::node_element && (xmlNode.first_child().empty() || xmlNode.first_child().type() == pugi::node_element))
 				{
 					return std::make_optional<PugiXmlObjectScope<TMode>>(xmlNode, TArchiveScope<TMode>::GetContext());
 				}
